@@ -8,6 +8,7 @@ import (
 	"fmt"
 	"os"
 	"os/exec"
+	"os/user"
 	"path/filepath"
 	"strings"
 	"sync"
@@ -137,7 +138,18 @@ func newProfEnv(scratch string) (*profEnv, error) {
 		}
 	}
 	if pe.home == "" {
-		return nil, fmt.Errorf("cannot determine the profiler's cache directory: exit=%d stderr=%s", r.Exit, r.Stderr)
+		// the profiler did not say (it failed, or no longer logs the file name): the cache lives under the home directory
+		// os/user reports for this uid, which is the same computation in this process
+		if u, err := user.Current(); err == nil && u.HomeDir != "" {
+			pe.home = u.HomeDir
+			if m, _ := filepath.Glob(filepath.Join(pe.home, ".seccomp-profiler", "probe-bin-*")); m != nil {
+				for _, f := range m {
+					os.Remove(f)
+				}
+			}
+		} else {
+			return nil, fmt.Errorf("cannot determine the profiler's cache directory: exit=%d stderr=%s", r.Exit, r.Stderr)
+		}
 	}
 	return pe, nil
 }
